@@ -252,6 +252,29 @@ func sortJSONObject(input gjson.Result, output []byte) []byte {
 	return output
 }
 
+// isNegativeZero reports whether the '-' just read (input[i-1]) starts a number
+// whose value is zero ("-0", "-0.0", "-0e3"). Only then may the sign be
+// dropped: "-0.5" and the exponent sign of "1e-05" have to stay.
+func isNegativeZero(input []byte, i int, output []byte) bool {
+	if n := len(output); n > 0 && (output[n-1] == 'e' || output[n-1] == 'E') {
+		return false // the sign of an exponent
+	}
+	if i >= len(input) || input[i] != '0' {
+		return false
+	}
+	for ; i < len(input); i++ {
+		switch c := input[i]; {
+		case c == '0' || c == '.':
+		case c >= '1' && c <= '9':
+			return false
+		default:
+			// end of the mantissa: an exponent does not make a zero non-zero
+			return true
+		}
+	}
+	return true
+}
+
 // CompactJSON makes the encoded JSON as small as possible by removing
 // whitespace and unneeded unicode escapes
 func CompactJSON(input, output []byte) []byte {
@@ -266,7 +289,7 @@ func CompactJSON(input, output []byte) []byte {
 			// Skip over whitespace.
 			continue
 		}
-		if c == '-' && input[i] == '0' {
+		if c == '-' && isNegativeZero(input, i, output) {
 			// Negative 0 is changed to '0', skip the '-'.
 			continue
 		}
